@@ -15,7 +15,6 @@ def Item.depth : Item → Nat
   | .typedef t => t.ty.depth
   | .constant c => c.depth
   | .struct s | .union s | .exception s => s.depth
-  | .enum _ => 1
   | .service s => s.depth
   | _ => 0
 
@@ -95,10 +94,9 @@ theorem item_rt {it : Item} (hw : it.wf = true) (hs : it.supported = true) {d : 
     simp only [List.cons.injEq, Char.reduceEq, false_and, and_false, if_false, if_true, reduceIte]
     exact pmap_of_ok h
   | .enum e, hw, _, hd =>
-    have hd' : 1 < d := hd
     have htext : (rItem (.enum e) last l).1 ++ R = (rEnum e l).1 ++ ((rB0 (rEnum e l).2).1 ++ R) := by
       simp only [rItem, rSeq_fst, List.append_assoc]
-    obtain ⟨g, hg, h⟩ := enum_rt (e := e) hw hd' l (rB0_BT (rEnum e l).2) hR
+    obtain ⟨g, hg, h⟩ := enum_rt (e := e) hw l (rB0_BT (rEnum e l).2) hR
     refine ⟨g, hg, ?_⟩
     have hk : itemKeyword ((rItem (.enum e) last l).1 ++ R) = .ok cs!"enum" ((rItem (.enum e) last l).1 ++ R) := by
       simp only [rItem, rEnum, rSeq_fst, rLit_fst, List.append_assoc]
@@ -181,45 +179,60 @@ theorem slot_rt {it : Item} (hw : it.wf = true) (hs : it.supported = true) {d : 
   rw [andThen_optBlank hbl (rItem_start it last l R).1.nb, andThen_of_ok h, andThen_optBlank hg hR.nb]
   rfl
 
-/-- stage theorem at a given budget -/
-theorem fileD_rt {f : File} (hw : f.wf = true) (hs : ∀ it ∈ f.items, it.supported = true) (hne : f.items ≠ [])
+/-- the document theorem at a given budget -/
+theorem fileD_rt {f : File} (hw : f.wf = true) (hs : ∀ it ∈ f.items, it.supported = true)
     {d : Nat} (hd : f.depth < d) (l : Layout) : File.parseD d (render l f) = .ok f [] := by
   obtain ⟨pkg, items⟩ := f
   simp only [File.wf, Bool.and_eq_true, List.all_eq_true] at hw
-  have hloop := manyTillF_slots (slotP d) rItem (fun it => it.wf = true ∧ it.supported = true ∧ it.depth < d)
-    (fun R => ItemStart R)
-    (by
-      intro x last l bl R hx hbl hlast hmid
-      have hR : ItemStart R := by
-        cases last with
-        | true => rw [hlast rfl]; rfl
-        | false => exact hmid rfl
-      exact ⟨(rItem_start x last l R).2, slot_rt hx.1 hx.2.1 hx.2.2 last l hbl hlast hR⟩)
-    (by intro y last l R _; exact (rItem_start y last l R).1)
-    items (rB0 l).2 (rB0 l).1 _ hne
-    (by
-      intro x hx
-      exact ⟨hw.1 x hx, hs x hx, Nat.lt_of_le_of_lt (item_depth_le (f := ⟨pkg, items⟩) hx) hd⟩)
-    (rB0_BT l) (Nat.lt_succ_self _)
   have htext : render l ⟨pkg, items⟩ = (rB0 l).1 ++ (rSlots rItem items (rB0 l).2).1 := by
     simp [render, rFile]
   rw [htext]
-  unfold File.parseD manyTill pmap
-  have hloop' : manyTillF (andThen (opt blank) fun _ => andThen (Item.parse d) fun item =>
-      andThen (opt blank) fun _ => ret item) eof (((rB0 l).1 ++ (rSlots rItem items (rB0 l).2).1).length + 1)
-      ((rB0 l).1 ++ (rSlots rItem items (rB0 l).2).1) = .ok (items, ()) [] := hloop
-  simp only [hloop', PR.map, PR.bind]
-  have hp := hw.2
-  congr 1
-  cases pkg with
-  | none =>
-    cases h : packageOf items with
-    | none => rfl
-    | some b => rw [h] at hp; simp at hp
-  | some a =>
-    cases h : packageOf items with
-    | none => rw [h] at hp; simp at hp
-    | some b => rw [h] at hp; simp at hp; rw [hp]
+  have hpkg : (File.mk (packageOf items) items) = ⟨pkg, items⟩ := by
+    have hp := hw.2
+    congr 1
+    cases pkg with
+    | none =>
+      cases h : packageOf items with
+      | none => rfl
+      | some b => rw [h] at hp; simp at hp
+    | some a =>
+      cases h : packageOf items with
+      | none => rw [h] at hp; simp at hp
+      | some b => rw [h] at hp; simp at hp; rw [hp]
+  have hnb : NB (rSlots rItem items (rB0 l).2).1 := by
+    cases items with
+    | nil => rfl
+    | cons it its =>
+      rw [rSlots_cons]
+      exact (rItem_start it _ _ _).1.nb
+  unfold File.parseD
+  rw [andThen_optBlank (rB0_BT l) hnb]
+  by_cases hne : items = []
+  · subst hne
+    rw [← hpkg]
+    rfl
+  · have hloop := manyTillF_slots (slotP d) rItem (fun it => it.wf = true ∧ it.supported = true ∧ it.depth < d)
+      (fun R => ItemStart R)
+      (by
+        intro x last l bl R hx hbl hlast hmid
+        have hR : ItemStart R := by
+          cases last with
+          | true => rw [hlast rfl]; rfl
+          | false => exact hmid rfl
+        exact ⟨(rItem_start x last l R).2, slot_rt hx.1 hx.2.1 hx.2.2 last l hbl hlast hR⟩)
+      (by intro y last l R _; exact (rItem_start y last l R).1)
+      items (rB0 l).2 [] _ hne
+      (by
+        intro x hx
+        exact ⟨hw.1 x hx, hs x hx, Nat.lt_of_le_of_lt (item_depth_le (f := ⟨pkg, items⟩) hx) hd⟩)
+      BT.nil (Nat.lt_succ_self _)
+    simp only [List.nil_append] at hloop
+    unfold manyTill pmap
+    have hloop' : manyTillF (andThen (opt blank) fun _ => andThen (Item.parse d) fun item =>
+        andThen (opt blank) fun _ => ret item) eof ((rSlots rItem items (rB0 l).2).1.length + 1)
+        (rSlots rItem items (rB0 l).2).1 = .ok (items, ()) [] := hloop
+    simp only [hloop', PR.map, PR.bind]
+    rw [hpkg]
 
 /-- from every sufficient budget to `File.parse`'s own budget -/
 theorem file_parse_of_fileD {f : File} {s : List Char} (h : ∀ d, f.depth < d → File.parseD d s = .ok f []) :
